@@ -86,8 +86,8 @@ type TrackerActor struct {
 	// RespLimit is the SUT's maximum HTTP tracker response size (0 = unknown): a client that
 	// stops reading an oversize reply before that many bytes gave up for another reason.
 	RespLimit int64
-	LatSlack      time.Duration
-	stopped       bool
+	LatSlack  time.Duration
+	stopped   bool
 }
 
 func (t *TrackerActor) nextReply() Reply {
